@@ -4,6 +4,7 @@ mod gen_cluster;
 mod gen_confchange;
 mod gen_inflights;
 mod gen_quorum;
+mod gen_raftlog;
 mod rng;
 
 use std::io::{BufWriter, Write};
@@ -23,6 +24,7 @@ fn replay(path: &str, out: &mut dyn Write) -> u64 {
     let mut inf = gen_inflights::Exec::default();
     let mut quo = gen_quorum::Exec::default();
     let mut cc = gen_confchange::Exec::default();
+    let mut rl = gen_raftlog::Exec::default();
     let mut n = 0;
     for line in text.lines() {
         let lhs = line.split(" -> ").next().unwrap_or("");
@@ -34,6 +36,7 @@ fn replay(path: &str, out: &mut dyn Write) -> u64 {
             "inf" => inf.exec(&toks[1..]),
             "q" => quo.exec(&toks[1..]),
             "cc" => cc.exec(&toks[1..]),
+            "rl" => rl.exec(&toks[1..]),
             _ => "bad-op".to_string(),
         };
         writeln!(out, "{} -> {}", lhs.trim(), obs).unwrap();
@@ -149,6 +152,13 @@ fn real_main() {
                 gen_confchange::exhaustive(arg(&args, "--ids", 3), arg(&args, "--len", 2), arg(&args, "--depth", 2), &mut out)
             } else {
                 gen_confchange::random(seed, arg(&args, "--cases", 3000), arg(&args, "--len", 12), &mut out)
+            }
+        }
+        "raftlog" => {
+            if args.iter().any(|a| a == "--exhaustive") {
+                gen_raftlog::exhaustive(arg(&args, "--len", 3), &mut out)
+            } else {
+                gen_raftlog::random(seed, arg(&args, "--cases", 5000), arg(&args, "--len", 40), &mut out)
             }
         }
         "cluster" => cluster(&args, seed, &mut out),
